@@ -44,6 +44,8 @@ func _evalStmts(
 
 		if _defer, ok := val.(*object.DeferObj); ok {
 			deferObjs = append(deferObjs, *_defer)
+			// NOTE: defer stmt itself is evaluated to nil (DeferObj must not leak as a value)
+			val = object.BuiltInNil
 		}
 
 		if val.Type() == object.YieldType {
